@@ -13,6 +13,7 @@ render through the REAL Renderer with those `track_spec`s and are compared with 
 """
 import copy
 import itertools
+import random
 import warnings
 import json
 from fractions import Fraction as F
@@ -385,7 +386,7 @@ def encode(sc, sess, parts, mode="run"):
     taps = sess.taps
     ts = uses_ts(sc)
     if ts:
-        mode = {"run": "runts", "spec": "spects"}[mode]
+        mode = {"run": "runts", "spec": "spects", "runos": "runtsos"}[mode]
     secs = [mode, "cfg %d %d %d %d" % (sc["sr"], sc["B"] if sc["B"] is not None else 512, nout, sc["nin"]),
             "taps %d %s" % (taps.shape[0], " ".join(rat(v) for v in taps.reshape(-1))),
             "parts " + " ".join(str(p) for p in parts),
@@ -880,6 +881,263 @@ def conv_cases(ctx, driver, n):
 
 
 # --------------------------------------------------------------------------------------
+# round 7: the partitioned overlap-save structure is INSIDE the model (Model/OverlapSave.lean). What is left outside is
+# the transform pair (numpy rfft/irfft); its convolution theorem + linearity is validated here on every run, and the
+# real OverlapSaveConvolver / VariableBlockSizeAdapter are compared with the transliterated model (exact rationals).
+
+OS_BLOCK_SIZES = (1, 2, 3, 5, 8)
+OS_ERR = {"IndexError": "os-emptyFilter", "ValueError:broadcast": "os-shape", "ValueError:range": "os-blockSizeZero"}
+
+
+def os_rng(ctx, what):
+    """A generator derived from the run's seed only (the stream of ctx.rng, which the older scenario generators and
+    the search consume, stays exactly what it was before these cases were added)."""
+    return random.Random("C02/%s/%s/%d" % (what, ctx.tier, ctx.seed))
+
+
+def exact_circ(N, a, b):
+    """Exact circular convolution of length N of integer arrays a (La <= N rows, zero-padded) and b (N rows), per
+    channel: out[n] = sum_m a[m] * b[(n - m) mod N]."""
+    out = np.zeros(b.shape, dtype=np.int64)
+    for m in range(min(len(a), N)):
+        out += a[m] * np.roll(b, m, axis=0)  # np.roll(b, m)[n] = b[(n - m) mod N]
+    return out
+
+
+def exact_fir(f4, x):
+    """Linear convolution written from the property text: y[t] = sum_k f[k] x[t-k], t < len(x), per channel; f4 = 4*f
+    as integers (the generated taps are multiples of 1/4), x integers. Exact (int64), returned as float."""
+    T, nch = x.shape
+    y = np.zeros((T, nch))
+    for c in range(nch):
+        if len(f4) and T:
+            y[:, c] = np.convolve(f4[:, c].astype(np.int64), x[:, c].astype(np.int64))[:T] / 4.0
+    return y
+
+
+def exc_name(e):
+    n = type(e).__name__
+    if n == "ValueError":
+        n += ":range" if "range()" in str(e) else ":broadcast" if "broadcast" in str(e) else ""
+    return OS_ERR.get(n, n + ":" + str(e)[:60])
+
+
+def fft_assumption_cases(ctx, driver, n):
+    """The trusted abstraction of Model/OverlapSave.lean: irfft(sum_k rfft(a_k, N) * rfft(b_k)) = sum_k circConv N a_k b_k
+    (convolution theorem for numpy's rfft/irfft of even length N = 2B, linearity of irfft), on integer-valued vectors
+    against exact integer arithmetic, 1e-9 relative to the largest exact value; for small N also the Lean circConv
+    (driver op circ) against the same exact values (must be identical)."""
+    rng = os_rng(ctx, "fft")
+    lines, metas = [], []
+    for i in range(n):
+        B = (OS_BLOCK_SIZES + (512,))[i % 6]
+        N = 2 * B
+        nch = rng.choice([1, 2, 3]) if B < 512 else 1
+        K = rng.choice([1, 1, 2, 3])
+        terms = []
+        for _ in range(K):
+            La = max(1, min(B, rng.choice([1, B - 1, B, rng.randint(1, B)])))
+            a = np.array([[rng.randint(-8, 8) for _ in range(nch)] for _ in range(La)], dtype=np.int64)
+            b = np.array([[rng.randint(-20, 20) for _ in range(nch)] for _ in range(N)], dtype=np.int64)
+            terms.append((a, b))
+        S = sum(np.fft.rfft(a.astype(float), N, axis=0) * np.fft.rfft(b.astype(float), axis=0) for a, b in terms)
+        td = np.fft.irfft(S, axis=0)
+        exact = sum(exact_circ(N, a, b) for a, b in terms)
+        ctx.case(("fft", N, nch, K, exact.tobytes()), True)
+        ctx.count("fft-assumption:N=%d" % N)
+        ctx.count("fft-assumption:terms=%d" % K)
+        inp = dict(N=N, terms=[(a.tolist(), b.tolist()) for a, b in terms]) if N <= 16 else dict(N=N, nch=nch, K=K)
+        if td.shape != exact.shape or np.max(np.abs(td - exact)) > 1e-9 * (1.0 + np.max(np.abs(exact))):
+            ctx.disagree("numpy irfft(sum rfft(a,N)*rfft(b)) vs exact circular convolution (the trusted transform "
+                         "abstraction of Model/OverlapSave.lean)", inp, exact.tolist()[:8], td.tolist()[:8])
+        else:
+            ctx.validated()
+        if N <= 16 and K == 1:
+            a, b = terms[0]
+            lines.append("circ ; cfg %d %d ; a %d %s ; b %s" % (N, nch, len(a), " ".join(str(v) for v in a.reshape(-1)),
+                                                                  " ".join(str(v) for v in b.reshape(-1))))
+            metas.append((inp, exact))
+    for (inp, exact), line in zip(metas, driver.run(lines)):
+        model, _ = parse_trace(line, exact.shape[1])
+        ctx.case(("circ", json.dumps(inp)), True)
+        ctx.count("fft-assumption:lean-circConv")
+        if len(model) != 1 or model[0].shape != exact.shape or np.max(np.abs(model[0] - exact)) != 0.0:
+            ctx.disagree("Lean circConv vs exact circular convolution", inp, line[:200], exact.tolist())
+        else:
+            ctx.validated()
+
+
+def os_filter_lengths(B):
+    return [0, 1, B - 1, B, B + 1, 2 * B, 3 * B + 1]
+
+
+def run_filter_blocks(B, nch, f, blocks):
+    """The real OverlapSaveConvolver on a sequence of blocks -> (outputs before an exception, exception name)."""
+    from ear.core.convolver import OverlapSaveConvolver
+
+    outs = []
+    try:
+        conv = OverlapSaveConvolver(B, nch, f)
+        for blk in blocks:
+            outs.append(np.array(conv.filter_block(blk)))
+    except Exception as e:  # noqa: BLE001 - the exception is the observable
+        return outs, exc_name(e)
+    return outs, None
+
+
+def run_adapter(B, nch, f, x, parts):
+    from ear.core.convolver import OverlapSaveConvolver, VariableBlockSizeAdapter
+
+    outs, pos = [], 0
+    try:
+        conv = OverlapSaveConvolver(B, nch, f)
+        vbs = VariableBlockSizeAdapter(B, nch, conv.filter_block)
+        for k in parts:
+            outs.append(np.array(vbs.process(x[pos:pos + k])))
+            pos += k
+    except Exception as e:  # noqa: BLE001
+        return outs, exc_name(e)
+    return outs, None
+
+
+def os_cases(ctx, driver, n, n_big):
+    """Real OverlapSaveConvolver.filter_block and VariableBlockSizeAdapter around it versus the transliterated model
+    (driver ops os / vbsos, exact rationals) on integer-valued inputs: block sizes 1,2,3,5,8 (and 512), filter lengths
+    0, 1, B-1, B, B+1, 2B, 3B+1, 1-3 channels, several blocks; plus the direct predicates written from the property
+    text (outputs = linear convolution of the concatenated input, delayed by B behind the adapter; independent of the
+    partition)."""
+    rng = os_rng(ctx, "os")
+    lines, metas = [], []
+
+    def gen(B, L, nch, T):
+        f4 = np.array([[rng.randint(-8, 8) for _ in range(nch)] for _ in range(L)], dtype=np.int64).reshape(L, nch)
+        x = np.array([[rng.randint(-20, 20) for _ in range(nch)] for _ in range(T)], dtype=np.int64).reshape(T, nch)
+        return f4, x
+
+    def enc(op, B, nch, f4, x, parts):
+        return "%s ; cfg %d %d ; taps %d %s ; parts %s ; x %s" % (
+            op, B, nch, len(f4), " ".join(rat(F(int(v), 4)) for v in f4.reshape(-1)), " ".join(map(str, parts)),
+            " ".join(str(int(v)) for v in x.reshape(-1)))
+
+    def scale(f4, x):
+        return max(1.0, float(np.abs(f4).sum()) / 4.0 * (float(np.abs(x).max()) if x.size else 1.0))
+
+    cases = []
+    for i in range(n):
+        B = OS_BLOCK_SIZES[i % 5]
+        k = (i // 5 + i) % 7
+        L = os_filter_lengths(B)[k]
+        if k == 2 and B <= 2:  # B-1 would repeat the lengths 0 / 1
+            L = rng.randint(2, 4 * B + 1)
+        cases.append((B, L, rng.choice([1, 2, 3]), rng.randint(1, 5)))
+    for i in range(n_big):
+        L = [1, 513, 511, 3, 1024, 1537][i % 6] if not ctx.quick else [1, 513 if ctx.seed % 2 == 0 else 511][i % 2]
+        cases.append((512, L, 1, 2))
+    for B, L, nch, nblocks in cases:
+        f4, x = gen(B, L, nch, nblocks * B)
+        f = f4 / 4.0
+        small = B < 512
+        desc = dict(B=B, nch=nch, f=f.tolist() if small else "L=%d" % L, x=x.tolist() if small else "T=%d" % len(x))
+        ctx.count("os:block_size=%d" % B)
+        ctx.count("os:filter-length:" + ("0" if L == 0 else "1" if L == 1 else "B-1" if L == B - 1 else "B" if L == B
+                                          else "B+1" if L == B + 1 else "2B" if L == 2 * B else "3B+1" if L == 3 * B + 1
+                                          else "other"))
+        ctx.count("os:channels=%d" % nch)
+        # (a) filter_block on successive blocks of B rows
+        real, rerr = run_filter_blocks(B, nch, f, [x[k:k + B].astype(float) for k in range(0, len(x), B)])
+        lines.append(enc("os", B, nch, f4, x, [B] * nblocks))
+        metas.append(("filter_block", desc, real, rerr, nch, 1e-9 * scale(f4, x)))
+        if L > 0:
+            # direct predicate: concatenated outputs = first #blocks*B samples of the linear convolution
+            if rerr is not None:
+                ctx.hit("OverlapSaveConvolver.filter_block raised on a block of block_size rows", desc,
+                        {"error": rerr}, ["raises"])
+            else:
+                cat = np.concatenate(real)
+                ref = exact_fir(f4, x)
+                if cat.shape != ref.shape or np.max(np.abs(cat - ref)) > 1e-9 * scale(f4, x):
+                    j = np.unravel_index(np.argmax(np.abs(cat - ref)), ref.shape) if cat.shape == ref.shape else (0, 0)
+                    ctx.hit("OverlapSaveConvolver output differs from the linear convolution with the filter "
+                            "(decorrelation FIR)", desc,
+                            {"frame": int(j[0]), "channel": int(j[1]),
+                             "convolver": float(cat[j]) if cat.shape == ref.shape else str(cat.shape),
+                             "convolution": float(ref[j])}, ["convolver-fir"])
+        if not small and (ctx.quick or L > 513):  # exact rationals at B = 512 are slow: keep the big cases few
+            continue
+        # (b) the adapter around it, over two random partitions of a stream whose length need not be a multiple of B
+        T = len(x) if not small else rng.randint(0, nblocks * B + B - 1)
+        f4b, xb = (f4, x) if not small else gen(B, L, nch, T)
+        fb = f4b / 4.0
+        descb = dict(B=B, nch=nch, f=fb.tolist() if small else "L=%d" % L, x=xb.tolist() if small else "T=%d" % T)
+        runs = []
+        for parts in (random_partition(rng, T), random_partition(rng, T)):
+            real, rerr = run_adapter(B, nch, fb, xb.astype(float), parts)
+            runs.append((parts, real, rerr))
+            lines.append(enc("vbsos", B, nch, f4b, xb, parts))
+            metas.append(("adapter", dict(descb, parts=list(parts)), real, rerr, nch, 1e-9 * scale(f4b, xb)))
+            ctx.count("os:adapter:" + shape_class(parts, T))
+        if L > 0:
+            ref = np.concatenate([np.zeros((B, nch)), exact_fir(f4b, xb)])[:T]
+            for parts, real, rerr in runs:
+                d = dict(descb, parts=list(parts))
+                if rerr is not None:
+                    ctx.hit("VariableBlockSizeAdapter around the convolver raised", d, {"error": rerr}, ["raises"])
+                    continue
+                cat = np.concatenate(real) if real else np.zeros((0, nch))
+                if [len(o) for o in real] != list(parts):
+                    ctx.hit("adapter returned blocks of other lengths than it was given", d,
+                            {"returned": [len(o) for o in real]}, ["length"])
+                elif T and np.max(np.abs(cat - ref)) > 1e-9 * scale(f4b, xb):
+                    j = np.unravel_index(np.argmax(np.abs(cat - ref)), ref.shape)
+                    ctx.hit("decorrelation path (adapter around the convolver) differs from the FIR delayed by "
+                            "block_size", d, {"frame": int(j[0]), "channel": int(j[1]), "adapter": float(cat[j]),
+                                              "delayed_convolution": float(ref[j])}, ["convolver-fir"])
+            (p0, r0, e0), (p1, r1, e1) = runs
+            if e0 is None and e1 is None and T:
+                c0, c1 = np.concatenate(r0), np.concatenate(r1)
+                if c0.shape == c1.shape and np.max(np.abs(c0 - c1)) > 1e-9 * scale(f4b, xb):
+                    ctx.hit("decorrelation path output depends on the blocking", dict(descb, parts=list(p0)),
+                            {"other_parts": list(p1)}, ["blocking"])
+    # (c) outside the quantifier, model and code must agree too: a block of one row is broadcast, any other length raises;
+    # block_size 0 raises in the constructor
+    for i in range(6 if ctx.quick else 30):
+        B = rng.choice([2, 3, 5])
+        nch = rng.choice([1, 2])
+        L = rng.choice([1, B, B + 1])
+        bad = rng.choice([1, 1, B - 1 if B > 2 else 0, B + 1, 0])
+        f4, x = gen(B, L, nch, B + bad + B)
+        parts = [B, bad, B]
+        real, rerr = run_filter_blocks(B, nch, f4 / 4.0, [x[:B].astype(float), x[B:B + bad].astype(float),
+                                                          x[B + bad:].astype(float)])
+        lines.append(enc("os", B, nch, f4, x, parts))
+        metas.append(("filter_block:odd-block", dict(B=B, nch=nch, f=(f4 / 4.0).tolist(), x=x.tolist(), parts=parts),
+                      real, rerr, nch, 1e-9 * scale(f4, x)))
+        ctx.count("os:odd-block:" + ("broadcast-one-row" if bad == 1 else "rejected-length"))
+    f4, x = gen(1, 2, 1, 0)
+    real, rerr = run_filter_blocks(0, 1, f4 / 4.0, [])
+    lines.append(enc("os", 0, 1, f4, x, []))
+    metas.append(("constructor:block_size=0", dict(B=0, f=(f4 / 4.0).tolist()), real, rerr, 1, 1e-9))
+    outs = []
+    for i in range(0, len(lines), 200):
+        outs += driver.run(lines[i:i + 200])
+    for (what, inp, real, rerr, nch, tol), line in zip(metas, outs):
+        model, merr = parse_trace(line, nch)
+        ctx.case(("os", what, json.dumps(inp, sort_keys=True)), True,
+                 sample={"overlap-save": what, "B": inp.get("B"), "nch": inp.get("nch"),
+                         "returned_block_lengths": [int(o.shape[0]) for o in real], "error": rerr})
+        if rerr != merr:
+            ctx.count("os:outcome:error-mismatch")
+            ctx.disagree("OverlapSaveConvolver %s vs Model/OverlapSave.lean (exception)" % what, inp, merr, rerr)
+            continue
+        ctx.count("os:outcome:" + ("ok" if rerr is None else "both-raise:" + rerr))
+        d = compare_blocks(real, model, tol)
+        if d:
+            ctx.disagree("OverlapSaveConvolver %s vs Model/OverlapSave.lean" % what, inp, d, "error=%s" % rerr)
+        else:
+            ctx.validated()
+
+
+# --------------------------------------------------------------------------------------
 
 
 class C02(Spec):
@@ -888,15 +1146,23 @@ class C02(Spec):
     props_module = "Earverif.Props.C02"
     theorems = tuple("Earverif.Stream." + t for t in (
         "delay_eq", "delay_block_independent", "vbs_eq", "vbs_block_independent", "aligner_run_eq",
-        "fir_init_zero", "fir_blockwise_eq", "vbs_fir_eq")) + tuple(
+        "fir_init_zero", "fir_blockwise_eq", "vbs_fir_eq",
+        # round 7: the partitioned overlap-save convolver (Proofs/C02OverlapSave.lean)
+        "os_step_spec", "overlapSave_eq_fir", "os_new_zero", "os_empty_filter", "os_fir_sim",
+        "vbs_overlapSave_run_eq", "vbs_overlapSave_eq", "vbs_overlapSave_block_independent")) + tuple(
         "Earverif.Renderer." + t for t in (
         "aligner_eq", "run_factor", "renderAll_eq_run", "procChans_spec", "chans_subRun_spec", "obj_stream",
         "ds_stream", "hoa_stream", "render_refines_spec", "C02_block_independent", "C02_length_and_origin",
-        "render_refines_spec_partial", "C02_block_independent_partial", "run_prefix")) + tuple(
+        "render_refines_spec_partial", "C02_block_independent_partial", "run_prefix",
+        "renderAllOS_eq", "render_refines_spec_os", "C02_block_independent_os", "C02_length_and_origin_os",
+        # the functions the driver runs (renderTrace*) are what the theorems are about (renderAll*)
+        "renderAll_eq_trace", "renderTrace_eq", "renderAllOS_eq_trace", "renderTraceOS_eq")) + tuple(
         "Earverif.RendererTS." + t for t in (
         "procChansTS_reid", "render_strip", "stepsTo_direct", "stepsTo_hoa", "run_stripS", "init_stripS",
         "render_refines_spec_ts", "render_eq_outTS", "C02_block_independent_ts", "C02_length_and_origin_ts",
-        "item_stream_eq_processor_run"))
+        "item_stream_eq_processor_run",
+        "renderAllTSOS_eq", "render_eq_outTS_os", "C02_block_independent_ts_os", "C02_length_and_origin_ts_os",
+        "renderAllTS_eq_trace", "renderTraceTS_eq", "renderAllTSOS_eq_trace", "renderTraceTSOS_eq"))
     HYPOTHESES_NOTE = (
         "theorems still stated with component facts as hypotheses: none needed any more - render_refines_spec, "
         "C02_block_independent and C02_length_and_origin are proved outright (hypothesis SessionOK = block_size >= 1 and "
@@ -904,8 +1170,13 @@ class C02(Spec):
         "(their aligner hypothesis is discharged by aligner_eq; the three per-renderer run hypotheses remain in "
         "their statements) and are superseded. Round 4: render_refines_spec_ts / C02_block_independent_ts / "
         "C02_length_and_origin_ts are proved outright for items with arbitrary well-formed track specs (hypothesis "
-        "SessionOKTS = SessionOK + C20's Spec.wf + every HOA item has >= 1 spec). Not under the kernel: FFT convolver "
-        "(FIR stand-in), gain calculators (captured).")
+        "SessionOKTS = SessionOK + C20's Spec.wf + every HOA item has >= 1 spec). Round 7: the partitioned "
+        "overlap-save structure of OverlapSaveConvolver is inside the model (Model/OverlapSave.lean) and proved equal to "
+        "the FIR (overlapSave_eq_fir, vbs_overlapSave_eq; hypotheses block_size >= 1 and a non-empty filter - the real "
+        "constructors raise otherwise: os_new_zero, os_empty_filter); render_refines_spec_os / render_eq_outTS_os and "
+        "the C02 corollaries *_os are the headline theorems for the renderer model with that convolver inside. Not under "
+        "the kernel: the transform pair rfft/irfft (its convolution theorem + linearity is the stated abstraction, "
+        "validated numerically on every run), gain calculators (captured).")
     trusted_base = (
         "models Earverif/Model/{Stream,Timeline,Renderer}.lean are hand transliterations of Delay, "
         "VariableBlockSizeAdapter, BlockAligner, ProcessingBlock/FixedGains/InterpGains/FixedMatrix, "
@@ -915,7 +1186,14 @@ class C02(Spec):
         "TrackProcessor/MultiTrackProcessor per item, importing the processor state machine of the C20 model "
         "(Model/TrackSpec.lean); tied to the real Renderer by differential runs with items constructed with "
         "mix/gain/matrix-coefficient(delay)/silent track specs",
-        "OverlapSaveConvolver (FFT) is modelled as a direct-form FIR with history, tied only by correspondence",
+        "OverlapSaveConvolver: Earverif/Model/OverlapSave.lean transliterates __init__/filter_block (filter partitions, "
+        "input_block halves, rotating queue, exceptions); the only abstraction is the transform pair: a spectrum is "
+        "represented by its inverse transform and `block += filter_block * in_block_fd` by adding the circular "
+        "convolution circConv (2*block_size) - i.e. the convolution theorem for numpy's rfft/irfft of even length plus "
+        "linearity of irfft, validated numerically on every run (integer vectors, exact integer circular convolution, "
+        "1e-9); the model is tied to the real OverlapSaveConvolver / VariableBlockSizeAdapter and, inside the renderer "
+        "model (renderTraceOS / renderTraceTSOS), to the real Renderer by differential runs; the older direct-form FIR "
+        "model is kept (proved equal: os_fir_sim, renderAllOS_eq)",
         "gain calculators are black boxes: their per-block results are captured and given to the model",
         "the model runs at frame type Vector Rat n (exact); the theorems are stated for any frame type with the "
         "module laws (instances: Rat, Vector Rat n, products)",
@@ -923,6 +1201,8 @@ class C02(Spec):
     assumptions = (
         "timelines accepted by the interpreters (ordered, non-overlapping, rtime/duration paired, block within "
         "object, interpolationLength <= duration, start times >= 0)",
+        "decorrelation filter with at least one tap (an empty filter array makes the real constructor raise IndexError; "
+        "design_decorrelators always returns `size` taps)",
         "block_size >= 1; sample_rate >= 1; track specs well formed (C20 Spec.wf: direct indices within the input "
         "channels, coefficient delays round to >= 0 samples), every HOA item has at least one track spec; input "
         "frames have n_in samples and get_tail is called with n_channels = n_in",
@@ -936,16 +1216,21 @@ class C02(Spec):
         "of scenarios gives the items generated track specs (mix of inputs, gain, matrix coefficient with gain and a "
         "delay of 0..5 or > T samples not on a rounding tie, silent, nested up to depth 3, the gain(mix(matrix "
         "coefficients)) shape of matrix packs) rendered through the real Renderer and the extended model; specs "
-        "outside Spec.wf (bad index, negative delay) must raise on both sides"
+        "outside Spec.wf (bad index, negative delay) must raise on both sides; every such run is also compared with the "
+        "renderer model that has the overlap-save convolver inside (driver ops runos/runtsos); a third family runs the "
+        "real OverlapSaveConvolver.filter_block and the VariableBlockSizeAdapter around it against Model/OverlapSave.lean "
+        "(block sizes 1,2,3,5,8,512; filter lengths 0,1,B-1,B,B+1,2B,3B+1; 1-3 channels; 1-5 blocks; random partitions "
+        "of streams whose length is not a multiple of B; one-row/odd-length blocks and block_size 0 must broadcast/raise "
+        "on both sides) and checks numpy's irfft(sum rfft(a,2B)*rfft(b)) against exact integer circular convolutions"
     )
 
     # budgets
     def budgets(self, ctx):
         if ctx.quick:
             return dict(small=45, parts_small=10, long=14, parts_long=3, rejected=12, conv=40, search=60,
-                        ts_small=30, ts_long=8, ts_rejected=8)
+                        ts_small=30, ts_long=8, ts_rejected=8, fft=24, os=42, os_big=2)
         return dict(small=220, parts_small=None, long=120, parts_long=5, rejected=80, conv=400, search=500,
-                    ts_small=150, ts_long=60, ts_rejected=40)
+                    ts_small=150, ts_long=60, ts_rejected=40, fft=240, os=420, os_big=6)
 
     def scenarios(self, ctx):
         bud = self.budgets(ctx)
@@ -977,7 +1262,10 @@ class C02(Spec):
     def correspond(self, ctx):
         ctx.notes.append(self.HYPOTHESES_NOTE)
         driver = Driver("c02driver", "Earverif.Driver.C02")
-        conv_cases(ctx, driver, self.budgets(ctx)["conv"])
+        bud = self.budgets(ctx)
+        conv_cases(ctx, driver, bud["conv"])
+        fft_assumption_cases(ctx, driver, bud["fft"])
+        os_cases(ctx, driver, bud["os"], bud["os_big"])
         self.correspond_render(ctx, driver, self.scenarios(ctx), mode="run")
 
     def correspond_render(self, ctx, driver, scs, mode, extra=None, c02_pred=True):
@@ -994,6 +1282,9 @@ class C02(Spec):
                 if mode == "run":
                     lines.append(encode(sc, sess, parts, "run"))
                     metas.append((sc, parts, real, sess.nout))
+                    # the same run through the renderer model with the overlap-save convolver inside
+                    lines.append(encode(sc, sess, parts, "runos"))
+                    metas.append((sc, parts, real, sess.nout, "os"))
             if mode == "spec":
                 lines.append(encode(sc, sess, plist[0], "spec"))
                 metas.append((sc, plist, runs, sess.nout))
@@ -1010,6 +1301,8 @@ class C02(Spec):
                 self._cmp_spec(ctx, meta, line)
 
     def _cmp_run(self, ctx, meta, line):
+        if len(meta) == 5:
+            return self._cmp_run_os(ctx, meta, line)
         sc, parts, (real, rerr), nout = meta
         model, merr = parse_trace(line, nout)
         nontrivial = bool(sc["items"]) and sc["T"] >= 1
@@ -1025,6 +1318,23 @@ class C02(Spec):
         d = compare_blocks(real, model, tol_of(sc))
         if d:
             ctx.disagree("Renderer vs Earverif.Renderer.renderTrace", slim(sc, parts), d, "error=%s" % rerr)
+        else:
+            ctx.validated()
+
+    def _cmp_run_os(self, ctx, meta, line):
+        """Real Renderer versus renderTraceOS / renderTraceTSOS (Model/OverlapSave.lean: the overlap-save convolver
+        inside ObjectRenderer)."""
+        sc, parts, (real, rerr), nout, _ = meta
+        model, merr = parse_trace(line, nout)
+        ctx.case((json.dumps(sc, sort_keys=True), parts, "os"), bool(sc["items"]) and sc["T"] >= 1)
+        if (rerr is None) != (merr is None):
+            ctx.count("outcome-os:error-mismatch")
+            ctx.disagree("Renderer vs model with overlap-save convolver (exception)", slim(sc, parts), merr, rerr)
+            return
+        ctx.count("outcome-os:" + ("ok" if rerr is None else "both-raise"))
+        d = compare_blocks(real, model, tol_of(sc))
+        if d:
+            ctx.disagree("Renderer vs Earverif.Renderer.renderTraceOS", slim(sc, parts), d, "error=%s" % rerr)
         else:
             ctx.validated()
 
@@ -1068,45 +1378,60 @@ class C02(Spec):
 SPEC = C02()
 
 REGISTRY = dict(
-    text="FULL: Lean theorem Earverif.Renderer.render_refines_spec proves, for every configuration with block_size >= 1, "
-    "every mix of accepted Objects/DirectSpeakers/HOA items, every input and EVERY partition of it into render() calls "
-    "(empty and single-sample blocks included), that the literal model of Renderer.render/get_tail raises nothing and "
-    "that all returned blocks plus the tail concatenate to the sample-by-sample specification RenderSpec.out of the "
-    "concatenated input; corollaries C02_block_independent (two blockings of the same input give identical output) and "
-    "C02_length_and_origin (exactly the input length, frame s = output time s). Proved from component theorems, each "
-    "for all partitions by induction: delay_eq (Delay.process slice copies), vbs_eq (VariableBlockSizeAdapter loop), "
-    "fir_blockwise_eq/vbs_fir_eq (FIR with history = whole-stream FIR delayed by block_size), aligner_eq (BlockAligner "
-    "add/get with offsets (-D,0,0)), bpc_eq_gainAt/fixed_all_spec (BlockProcessingChannel + the three interpreters), "
-    "procChans_spec/chans_subRun_spec (loop over items), obj_stream/ds_stream/hoa_stream, run_factor. The models are tied "
-    "to the real ear.core.renderer.Renderer on every run (block_size 1-8, decorrelator size 2-16 via public options; "
-    "captured gains; all compositions of streams <= 8 frames in thorough; OverlapSaveConvolver and the adapter against "
-    "the FIR model) and the direct predicate (max |out_A - out_B| <= 1e-9 scale over blockings, total length = input "
-    "length) searches the real code, including default 512/512 sizes in thorough. "
-    "Round 4 - track processors are now INSIDE the model: Earverif/Model/RendererTS.lean gives every Objects/"
-    "DirectSpeakers item a TrackSpec.Spec and every HOA item a list of specs, builds TrackProcessor/MultiTrackProcessor "
-    "in set_rendering_items and steps them in the per-item loop of each render call (state machine imported from the "
-    "C20 model, incl. the lazily created per-coefficient Delay lines), and feeds get_tail's zero block through them. "
-    "Earverif.RendererTS.render_refines_spec_ts proves for every session with block_size >= 1, accepted timelines and "
-    "well-formed specs (C20 Spec.wf; direct/silent/mix/gain/matrix coefficient with gain and delay, nested to any "
-    "depth) and EVERY partition that nothing raises and the concatenated output is RenderSpec.out applied to the "
-    "per-item streams meaning(spec)(input ++ tail silence) cut to the input length (render_eq_outTS: = outTS, the "
-    "formula written out); proof = C20's step_after/stepList_after (induction step of processor_eq_meaning) shows "
-    "each render call equals a render call of the direct-track model on the block of processed streams (render_strip, "
-    "run_stripS, init_stripS), then render_refines_spec via run_prefix. Corollaries C02_block_independent_ts, "
-    "C02_length_and_origin_ts; item_stream_eq_processor_run ties the streams to processor_eq_meaning. The "
-    "correspondence renders generated scenarios whose items carry mix / gain / matrix-coefficient(gain, delay of a few "
-    "or > T samples) / silent / nested / matrix-pack-shaped track specs through the real Renderer and the extended "
-    "model (driver ops runts/spects), plus specs outside Spec.wf that must raise on both sides; a third of the "
-    "partition-pair search uses such items.",
-    note="Trusted: Lean kernel; hand transliteration + correspondence harness; the FFT convolver is modelled as a "
-    "direct-form FIR (tied by correspondence only); gain calculators are black boxes (captured). Quantifier: timelines "
-    "accepted by the interpreters with non-negative durations / interpolation lengths and start >= 0; track specs "
-    "satisfying Spec.wf (indices within the input channels, delays rounding to >= 0 samples; delays generated away "
-    "from rounding ties so that the float formula of init_delay is unambiguous - the tie rule itself is C20), HOA "
-    "items with >= 1 spec; one sample rate per session. Exact rationals on the model side; the property's 'up to "
-    "rounding' is the float gap. render_refines_spec_partial / C02_block_independent_partial are superseded "
-    "leftovers.",
-    technique="Lean 4 refinement proof of the composed renderer (induction over partitions, component by component) + "
-    "differential correspondence with the real Renderer + partition-pair search",
+    text="FULL: Lean theorems Earverif.Renderer.render_refines_spec_os / C02_block_independent_os / "
+    "C02_length_and_origin_os (and render_eq_outTS_os / C02_block_independent_ts_os / C02_length_and_origin_ts_os with "
+    "track processors) prove, for the renderer model that has the PARTITIONED OVERLAP-SAVE convolver of "
+    "ear/core/convolver.py inside ObjectRenderer (Model/OverlapSave.lean: filter partitions of block_size rows, "
+    "input_block with the current block in the first and the previous block in the second half, rotating queue "
+    "blocks_fd, slot 0 inverse-transformed / first half returned / zeroed / queue rotated; behind the "
+    "VariableBlockSizeAdapter), for every session in the stated quantifier (SessionWF: block_size >= 1, timelines the "
+    "interpreters accept, track indices inside the input, HOA decode matrices as wide as the item has tracks, a "
+    "decorrelation filter with >= 1 tap; InputOK: frames of n_in samples), every input and EVERY partition of it into "
+    "render() calls (empty and single-sample blocks included): no call raises, all returned blocks plus the tail "
+    "concatenate to the sample-by-sample specification RenderSpec.out of the concatenated input, hence two blockings "
+    "give identical output, of exactly the input length, frame s = output time s. Convolver theorems "
+    "(Proofs/C02OverlapSave.lean): os_step_spec (explicit state invariant OSInv: slot i holds the contributions due i "
+    "blocks from now), overlapSave_eq_fir (any B >= 1, any non-empty filter - shorter than B, not a multiple of B, many "
+    "partitions - any number of blocks: concatenated filter_block outputs = the linear convolution), os_fir_sim, "
+    "vbs_overlapSave_run_eq / vbs_overlapSave_eq (adapter around the convolver over ANY partition = the FIR delayed by "
+    "block_size, call by call), renderAllOS_eq / renderAllTSOS_eq (whole sessions with the overlap-save convolver = "
+    "sessions with the direct-form FIR, same exception or same audio, no hypotheses on items); os_new_zero / "
+    "os_empty_filter state what the code does outside (block_size 0: ValueError, empty filter: IndexError). The only "
+    "abstraction left in the convolver is the transform pair: spectra are represented by their inverse transforms and "
+    "`block += filter_block * in_block_fd` by adding circConv(2*block_size) - the convolution theorem for numpy's "
+    "rfft/irfft plus linearity of irfft, ASSUMED in the proof and validated numerically on every run (integer vectors, "
+    "N = 2..16 and 1024, 1-3 accumulated terms, against exact integer circular convolution, 1e-9; Lean circConv against "
+    "the same exact values). The older theorems render_refines_spec / C02_block_independent / C02_length_and_origin "
+    "(_ts) are about the model with the direct-form FIR stand-in (proved equal to the above) and totalised indexing; "
+    "component theorems, each for all partitions by induction: delay_eq, vbs_eq, fir_blockwise_eq/vbs_fir_eq, "
+    "aligner_eq, bpc_eq_gainAt/fixed_all_spec, procChans_spec/chans_subRun_spec, obj_stream/ds_stream/hoa_stream, "
+    "run_factor; track processors via C20's step_after (render_strip, run_stripS, init_stripS, run_prefix). "
+    "renderTrace_eq / renderTraceOS_eq / renderTraceTS_eq / renderTraceTSOS_eq prove that the functions the "
+    "correspondence driver runs (renderTrace*) determine renderAll* (result = concatenated trace blocks, or the trace's "
+    "exception). Tie on every run: real ear.core.renderer.Renderer (block_size 1-8, decorrelator size 2-16 via public "
+    "options, captured gains, generated accepted timelines, items with mix/gain/matrix-coefficient(delay)/silent/nested "
+    "track specs, rejected timelines/specs that must raise on both sides; all compositions of streams <= 8 frames in "
+    "thorough) against BOTH renderer models (FIR and overlap-save: driver ops run/runts and runos/runtsos); real "
+    "OverlapSaveConvolver.filter_block and VariableBlockSizeAdapter around it against Model/OverlapSave.lean (block "
+    "sizes 1,2,3,5,8,512; filter lengths 0,1,B-1,B,B+1,2B,3B+1; 1-3 channels; several blocks; random partitions incl. "
+    "empty blocks; one-row blocks broadcast, other lengths and block_size 0 raise on both sides). Direct predicates on "
+    "the real code: max |out_A - out_B| <= 1e-9 scale over blockings and total length = input length (Renderer, incl. "
+    "default 512/512 sizes in thorough; decorrelation path alone), convolver output = exact linear convolution "
+    "(tag convolver-fir).",
+    note="Trusted: Lean kernel; hand transliteration + correspondence harness; numpy's rfft/irfft satisfy the "
+    "convolution theorem and irfft is linear (stated abstraction of Model/OverlapSave.lean, checked numerically each "
+    "run, not proved); gain calculators are black boxes (captured). Quantifier: timelines accepted by the interpreters "
+    "with non-negative durations / interpolation lengths and start >= 0; track indices < n_in and HOA matrices of the "
+    "right width (the models index with defaults where numpy raises IndexError/ValueError - IndexOK/InputOK mark this "
+    "in the *_os theorems; the FIR-model theorems are about the totalised model); track specs satisfying Spec.wf "
+    "(delays generated away from rounding ties - the tie rule itself is C20), HOA items with >= 1 spec; one sample "
+    "rate per session; filter with >= 1 tap (Cfg.decorrelator_delay for an empty filter is Nat 0 where Python has -1: "
+    "unreachable, the real constructor raises first). Exact rationals on the model side; the property's 'up to "
+    "rounding' is the float gap. render_refines_spec_partial / C02_block_independent_partial are leftovers superseded "
+    "by render_refines_spec(_os) / C02_block_independent(_os).",
+    technique="Lean 4 refinement proof of the composed renderer (induction over partitions, component by component; "
+    "state-invariant proof of the partitioned overlap-save convolver; simulation between the two convolver models lifted "
+    "through adapter and renderer) + differential correspondence with the real Renderer and the real convolver + "
+    "numerical validation of the assumed FFT convolution theorem + partition-pair search",
     design_ref="DESIGN.md section 4, C02/C03",
 )
